@@ -277,7 +277,9 @@ def discharge(obs, outdir, timeout=20.0, portfolio=PORTFOLIO, jobs=16, extra_fue
     def work(i):
         ob = obs[i]
         res = Result(ob.name, ob.kind, "unknown", smt_file=paths[i], expect_fail=ob.expect_fail, line=ob.line, info=ob.info)
-        rounds = [min(timeout, 4.0)] if ob.expect_fail else [3.0, timeout]
+        # escalating budgets: most proofs take milliseconds in some configuration; the long last round only runs
+        # for what is still open, so that a busy machine does not flip a verdict to "unknown"
+        rounds = [min(timeout, 4.0)] if ob.expect_fail else [3.0, timeout, max(60.0, 3 * timeout)]
         decided = False
         for rnd, tmo in enumerate(rounds):
             for solver in (portfolio[:2] if ob.expect_fail else portfolio):
